@@ -402,3 +402,10 @@ M("benign-free-tree-default", ["C13", "C16"], "benign",
 
 M("r13-revert-F23", ["C04"], "break",
   [("yaep.c", "      if (node->val.anode.cost >= 0)\n	/* The node has been already traversed through another parent.  */\n	break;\n", "")], "traverse_pruned_translation/cost-toggle")
+
+M("r1c-revert-F24", ["C14"], "break",
+  [("yaep.c", "      grammar->one_parse_p = saved_one_parse_p;\n      pl_fin ();", "      pl_fin ();")], "grammar.one_parse_p")
+M("r15-skip-first-start-situation", ["C09", "C01"], "break",
+  [("yaep.c", "  for (i = set->core->n_start_sits - 1; i >= 0; i--)\n    {\n      if ((dist = dists[i]) <= 1)", "  for (i = set->core->n_start_sits - 1; i > 0; i--)\n    {\n      if ((dist = dists[i]) <= 1)")], "covers-all-start-situations")
+M("r15-benign-ascending-loop", ["C09", "C01"], "benign",
+  [("yaep.c", "  for (i = set->core->n_start_sits - 1; i >= 0; i--)\n    {\n      if ((dist = dists[i]) <= 1)", "  for (i = 0; i < set->core->n_start_sits; i++)\n    {\n      if ((dist = dists[i]) <= 1)")])
